@@ -21,7 +21,7 @@ RULE = ("cases = calls of the optimized modules' add/double/neg/eq/is_on_curve/l
         "each operand infinite in the representatives (1,1,0), (0,1,0), (0,0,0), (x,y,0); secp: y=0 marker, U1=U2 with S1=S2 / S1!=S2) and "
         "each affine input is presented in two different scalings whose results must represent the same point; fields: both real primes with "
         "FQ, FQ2, FQ12 coordinates, six other primes of 5..256 bits, and exhaustively all pairs of projective triples over GF(5), GF(7) "
-        "(thorough: GF(11), GF(13), FQ2 over GF(5)); random evaluation decides each path's polynomial identity up to Schwartz-Zippel error "
+        "(thorough: also GF(11); GF(13) and FQ2 over GF(5) only with PV_C13_HUGE=1); random evaluation decides each path's polynomial identity up to Schwartz-Zippel error "
         "<= d/q (d <= 40, q >= 2^254 on the real fields); distinct = distinct (module, function, coordinates); non-trivial = every case "
         "with z != 1 or operands that are not small multiples of a generator")
 ASSUMPTIONS = ["'any representative of infinity' = any triple with z = 0 (optimized modules) / y = 0 (secp256k1's marker); line functions are defined for finite operands only",
@@ -284,9 +284,12 @@ def run(rec):
         tasks.append(("real12", modkey, fc, S.F12, 16 if quick else 300, "FQ12-coords"))
         for bits in (5, 13, 31, 64, 127, 256):
             tasks.append(("other", modkey, None, bits, 60 if quick else 1000, "other-primes"))
-        for p in ((5, 7) if quick else (5, 7, 11, 13)):
+        # thorough: GF(11) on top of GF(5), GF(7).  GF(13) and FQ2 over GF(5) (their shards took 78 min resp. did not finish in 2 h 40 min
+        # in thorough run #6) are available with PV_C13_HUGE=1 only: a thorough command has to come back
+        huge = __import__("os").environ.get("PV_C13_HUGE") == "1"
+        for p in ((5, 7) if quick else ((5, 7, 11, 13) if huge else (5, 7, 11))):
             tasks.append(("exh", modkey, None, p, 0, ""))
-        if not quick:
+        if not quick and huge:
             tasks.append(("exh2", modkey, None, 5, 0, ""))
     tasks.append(("secp", None, None, None, 0, ""))
     tasks.append(("secp-exh", None, None, None, 0, ""))
